@@ -142,6 +142,52 @@ def rule_permute(ctx):
     return res.finish(5)
 
 
+def rule_precombine(ctx):
+    """The solver folds the support vectors into one hyperplane when the kernel is linear - and only then: `is_linear()` is
+    the one definition of that (R-C13-islinear pins it to the linear kernel).  A second definition inside `solve` (degree-one
+    polynomials, say) drops the kernel's constant from the stored hyperplane while rho keeps it; for the one-class problem
+    (sum alpha = nu l, not 0) the decision values are off by c * nu * l."""
+    res = RuleResult("R-C13-precombine", "SolverState::solve pre-combines the support vectors exactly when `is_linear()` says so")
+    F = ctx.facts()
+    fns = [f for f in solver_fns(F) if f["d"]["name"] == "solve"]
+    if not fns:
+        res.missing_anchor("SolverState::solve")
+    for fn in fns:
+        c = fn["crate"]
+        r = Render(c)
+        key = fn_key(fn)
+        res.instance(key)
+        inits = {}
+        for y in walk(fn["body"]):
+            if y.get("k") == "LetStmt" and y.get("init") is not None and y["pat"].get("k") == "Bind":
+                inits[y["pat"]["local"]] = (y["pat"]["name"], y["init"])
+        branch = None
+        for loc, (nm, ini) in inits.items():
+            i0 = strip(ini)
+            if nm == "sep_hyperplane" and i0.get("k") == "If":
+                branch = i0
+        if branch is None:
+            for y in walk(fn["body"]):
+                if y.get("k") == "If" and y.get("else") is not None and any(z.get("k") == "MethodCall" and z["name"] == "scaled_add" for z in walk(y["then"])) and any(z.get("k") == "MethodCall" and z["name"] in ("push", "to_owned", "select") for z in walk(y["else"])):
+                    branch = y
+        if branch is None:
+            res.undecided("%s : branch" % key, "the linear / non-linear branch was not found (fail closed)", fn_loc(fn))
+            continue
+        cnd = strip(branch["c"])
+        while cnd.get("k") in ("DropTemps", "Paren"):
+            cnd = strip(cnd["e"])
+        src = cnd
+        if cnd.get("k") == "Path" and cnd.get("local") in inits:
+            src = strip(inits[cnd["local"]][1])
+        if src.get("k") == "MethodCall" and src["name"] == "is_linear":
+            res.ok()
+        elif src.get("k") in ("Match", "Binary", "If") or (src.get("k") == "MethodCall" and src["name"] != "is_linear"):
+            res.violate("%s : precombination-not-keyed-on-is-linear" % key, "the branch that folds the support vectors into one hyperplane is taken under `%s`, not under `is_linear()`: a kernel with a constant term (polynomial of degree one) is folded without that constant while rho keeps it" % r.e(src)[:60], fn_loc(fn, branch.get("ln")))
+        else:
+            res.undecided("%s : branch-condition" % key, "`%s` (fail closed)" % r.e(src)[:40], fn_loc(fn, branch.get("ln")))
+    return res.finish(1)
+
+
 def rule_bound(ctx):
     res = RuleResult("R-C13-bound", "no counted loop over positions takes its bound once from a field that its own body decrements")
     F = ctx.facts()
@@ -1312,7 +1358,7 @@ def rule_nusetup(ctx):
 def rules(tier):
     from . import carry, c04
     from . import precision
-    return [rule_permute, rule_nusetup, rule_reselect, rule_islinear, rule_decision, rule_swap, rule_bound, rule_space, rule_sv, rule_sib, rule_snapshot, rule_rho, rule_rescale, rule_memorder, rule_extent, rule_kernel,
+    return [rule_precombine, rule_permute, rule_nusetup, rule_reselect, rule_islinear, rule_decision, rule_swap, rule_bound, rule_space, rule_sv, rule_sib, rule_snapshot, rule_rho, rule_rescale, rule_memorder, rule_extent, rule_kernel,
             carry.make_clone_rule("R-C13-clone", {"linfa_svm", "linfa_kernel"}, 6), carry.make_setter_rule("R-C13-override", {"linfa_svm"}, 6), c04.make_carry_rule("R-C13-carry", {"SvmParams"}, 6),
             precision.make_rule("R-C13-precision", lambda f: f["d"]["krate"] in ("linfa_svm", "linfa_kernel"), 100, "linfa-svm and linfa-kernel"),
             carry.make_accessor_rule("R-C13-accessor", {"linfa_svm", "linfa_kernel"}, 3), carry.make_ctor_rule("R-C13-ctor", {"linfa_svm", "linfa_kernel"}, 3)]
